@@ -1905,7 +1905,10 @@ class ParallelSampleSMP:
                     self.rng.choice(
                         number_of_chains, exchanges_per_proposal * 2, replace=False
                     )
-                    for i in range(int(proposals / exchange_interval))
+                    # Proposals 0, interval, 2 * interval, ... < proposals exchange;
+                    # every one of them needs a row (also when the interval does not
+                    # divide the amount of proposals).
+                    for i in range(-(-proposals // exchange_interval))
                 ]
             )
             # Communication object
